@@ -117,7 +117,7 @@ def oracle_lockfam(run):
                 # is fine; a write that rests on a read made under an earlier acquisition is not: another thread's write in
                 # between would be lost).  Stated on values and critical sections only, not on how the operation is coded.
                 opn = cur.get(tid, "").split("!")[0].split("=")[0]
-                opn = "xc" if opn == "xl" else opn
+                opn = "xc" if opn == "xl" else ("md" if opn == "mc" else opn)
                 mine = seen.get(tid, [])
                 here = [x for kk, x in mine[brk.get(tid, 0):] if kk == "prd"]
                 earlier = [x for kk, x in mine[:brk.get(tid, 0)] if kk == "prd"]
@@ -175,7 +175,7 @@ def _register_check(op, res, acc, pre=None):
     writes = [v for k, v in acc if k == "pwr"]
     if name == "rv":
         name = "rd"
-    if name == "mv":
+    if name in ("mv", "mc"):
         name = "md"
     if name == "xl":
         name = "xc"
